@@ -38,7 +38,8 @@ CANARY_SHAPES = [
 ]
 OUT_FLAGS = list("jsdSCWJLlGgoOc…ṪṡP")
 FAIL_TARGETS = ["add", "multiply", "increment", "decrement", "vy_str", "is_even", "halve", "negate", "vy_sum", "merge",
-                "length", "head", "tail", "reverse", "deep_flatten", "vy_repr", "uniquify", "inclusive_one_range"]
+                "length", "head", "tail", "reverse", "deep_flatten", "vy_repr", "uniquify", "inclusive_one_range",
+                "join", "center", "vertical_join", "monadic_maximum", "monadic_minimum", "vy_type", "boolify", "index"]
 FAIL_EXC = {"ValueError": ValueError, "TypeError": TypeError, "RecursionError": RecursionError,
             "ZeroDivisionError": ZeroDivisionError, "IndexError": IndexError, "KeyError": KeyError}
 
@@ -123,6 +124,7 @@ class C19(core.Check):
         self.prints_done = 0
         self.chunks = []
         self._wrap_print()
+        self._wrap_vy_eval()
         self._wrap_fail_targets()
         self.flask = None
 
@@ -154,6 +156,24 @@ class C19(core.Check):
         self.main.vy_print = vy_print
         if hasattr(self.m["transpile"], "vy_print"):
             self.m["transpile"].vy_print = vy_print
+
+    def _wrap_vy_eval(self):
+        """count calls of helpers.vy_eval: a program that reaches it (E, J on two numbers, ...) differs between the
+        offline and online modes by design, so the record==offline clause does not apply to that run"""
+        orig = self.m["helpers"].vy_eval
+        if getattr(orig, "__verif_wrapped__", False):
+            return
+        chk = self
+
+        def vy_eval(item, ctx):
+            chk.vy_eval_calls += 1
+            return orig(item, ctx)
+
+        vy_eval.__verif_wrapped__ = True
+        self.vy_eval_calls = 0
+        for name in ("helpers", "elements", "main", "transpile"):
+            if hasattr(self.m[name], "vy_eval"):
+                setattr(self.m[name], "vy_eval", vy_eval)
 
     def _wrap_fail_targets(self):
         chk = self
@@ -264,6 +284,7 @@ class C19(core.Check):
             extra_input = None
         n_in = rw.choice([0, 0, 1, 2, 3])
         inputs = []
+        weird = False
         if extra_input is not None:
             inputs.append(extra_input)
         for _ in range(n_in):
@@ -274,9 +295,25 @@ class C19(core.Check):
                 inputs.append(str(rw.randint(0, 9)))
             elif x < 0.9:
                 inputs.append("[" + ",".join(str(rw.randint(0, 9)) for _ in range(rw.randint(0, 3))) + "]")
-            else:
+            elif x < 0.95:
                 inputs.append(rw.choice(['"ab"', "abc", "1.5", "-3"]))
+            else:
+                # valid Python literals that are not Vyxal values, and near-literals
+                inputs.append(rw.choice(["1e999", "-1e400", "None", "...", "[1, None]", "{1: 2}", "(1, 2)", "b'x'", "True", "1j",
+                                         "{1, 2}", "[[]]", "''", "0x10", "1_000", "[1, [2, [3]]]", "1e3", "nan", "-0.0", "[,]",
+                                         "\"unterminated", "9" * 400]))
+                weird = True
         flags = "".join(rw.sample(OUT_FLAGS, rw.choice([0, 0, 1, 1, 2])))
+        if rw.random() < 0.03:
+            flags += "h"
+        x_ = rw.random()
+        if x_ < 0.04:
+            nodes.insert(rw.randint(0, len(nodes)), ["t", rw.choice(["λa|1;", "λ-1|1;", "@f:*|1; @f;", "k"])])  # transpile / run-time errors
+        elif x_ < 0.08:
+            nodes.insert(rw.randint(0, len(nodes)), ["t", rw.choice(["Q", "1 [ Q ]", "`a` , Q `b` ,"])])
+        elif x_ < 0.16:
+            nodes.insert(rw.randint(0, len(nodes)), ["t", rw.choice(["λ›; ,", "⟨ λ›; | 2 ⟩ ,", "λ`p`,; ,", "λ2|+; …", "3 λ›; S ,",
+                                                                      "⟨ λ`q`₴ 1; ⟩ ,", "λ›; ₴"])])
         fk = rf.choice(["none", "fail", "fail", "kill", "kill", "kill_sweep", "stdin", "net"])
         fault = dict(kind=fk)
         if fk == "fail":
@@ -289,6 +326,8 @@ class C19(core.Check):
         elif fk == "net":
             fault.update(mode=rf.choice(["error", "tainted"]))
         layer = "flask" if rw.random() < 0.3 else "direct"
+        if weird:
+            uses_eval = True  # eval() and literal_eval() legitimately disagree on these: no online == offline clause
         case = dict(nodes=nodes, inputs=inputs, flags=flags, fault=fault, layer=layer, taint=taint, uses_eval=uses_eval)
         if layer == "flask":
             case["speed"] = rf.choice([200, 1000, 5000, 100000])  # child steps per simulated second
@@ -316,6 +355,7 @@ class C19(core.Check):
         out, err = world.RecordingStdout(), world.RecordingStdout()
         self.out = out
         self.print_depth, self.prints_done, self.chunks = 0, 0, []
+        self.vy_eval_calls = 0
         old = (sys.stdout, sys.stderr)
         sys.stdout, sys.stderr = out, err
         outcome = "ok"
@@ -356,6 +396,7 @@ class C19(core.Check):
                     rec2=rec.d.get(2, ""), steps=steps,
                     prints=(done_at_kill[0] if done_at_kill[0] is not None else self.prints_done), chunks=list(self.chunks),
                     hits=list(canary.HITS), compiles=list(canary.COMPILES), fired=f.fired, census=dict(f.census),
+                    vy_evals=self.vy_eval_calls,
                     stdin_faults=dict(world.STDIN.faults), net_faults=dict(world.URLLIB.faults),
                     net_calls=len(world.URLLIB.calls))
 
@@ -375,7 +416,7 @@ class C19(core.Check):
         if oc.startswith("raised:"):
             return ("error-escaped", f"{what}: {oc[7:]} propagated out of execute_vyxal in online mode "
                                      f"(error record {r['rec2'][-60:]!r})")
-        if oc.startswith("exit:") and oc != "exit:0" and not r["rec2"].strip():
+        if oc.startswith("exit:") and oc not in ("exit:0", "exit:None") and not r["rec2"].strip():
             return ("error-unreported", f"{what}: online run exited with {oc} but the error record is empty")
         return None
 
@@ -428,6 +469,9 @@ class C19(core.Check):
             off = self.exec_once(text, flags, inputs, False)
             steps += off["steps"]
             log.append(dict(run="offline", outcome=off["outcome"], stdout=off["stdout"][:120], prints=off["prints"]))
+            if on["vy_evals"] > len(inputs) or off["vy_evals"] > len(inputs):
+                mode_dependent = True  # the program itself reached vy_eval (E, J on two numbers, ...)
+                cov.add("probe:program-reaches-vy_eval")
             if not mode_dependent and off["outcome"] == "ok" and on["outcome"] == "ok":
                 if on["rec1"] != off["stdout"]:
                     return fail("record-differs", f"online record {on['rec1'][:80]!r} != offline stdout {off['stdout'][:80]!r}")
@@ -435,6 +479,8 @@ class C19(core.Check):
         # one injected fault
         fk = fault["kind"]
         phase[0] = {"kill_sweep": "kill"}.get(fk, fk)
+        if fk == "fail" and "h" in flags:
+            fk = "none"  # the help flag prints and exits before the program runs: there is no element to fail
         if fk == "fail":
             # aim at a function this program really calls (census of the fault-free run), at one of its calls
             called = sorted(n for n, c in on["census"].items() if c > 0)
